@@ -43,8 +43,6 @@ def main() -> int:
         out["demo_clean_rc"] = rc
         out["demo_clean_tail"] = o.strip().splitlines()[-2:]
         rc, o = sh(f"git apply --whitespace=nowarn {patch}", cwd=REPO)
-        if rc != 0:
-            rc, o = sh(f"git apply --3way --whitespace=nowarn {patch}", cwd=REPO)
         out["apply_rc"] = rc
         if rc != 0:
             out["apply_err"] = o[-400:]
@@ -61,7 +59,7 @@ def main() -> int:
             lines = [l for l in o.splitlines() if l.startswith("  [") or l.startswith("ANALYSIS-ERROR") or l.startswith("VIOLATION")]
             out["checks"][p] = {"exit": rc, "lines": [l[:400] for l in lines if not l.startswith("VIOLATION")][:4]}
     finally:
-        sh("git checkout -- . && git clean -fdq -- cspuz bench sugar_extension tests", cwd=REPO)
+        sh("git reset -q --hard HEAD && git clean -fdq -- cspuz bench sugar_extension tests", cwd=REPO)
         sh(f"rm -rf {tmp}")
     rc, o = sh("git status --porcelain", cwd=REPO)
     out["repo_clean_after"] = not o.strip()
